@@ -41,6 +41,21 @@ PROPS = {
     "C09": {
         "rule": "op 26: well-formed messages (a third forced to log messages incl. invalid levels) x filter configurations (each criterion absent/present, sets containing/not containing the message's ids, duplicated ids, counts around the set sizes, all level numbers); op 27 both conversions incl. all 256 level numbers.",
     },
+    "C11": {
+        "rule": "ops 50/51: abstract FIBEX models over the full S_*/A_* vocabulary (0-4 frames, PDUs, signals, codings; sequence numbers incl. 0, 2^32, 2^64-1 and ties; duplicated frame/PDU/signal/coding ids; unknown signal references; dangling PDU references; optional application/context ids) laid out in a permuted element order over 1-3 files, rendered to XML either exactly in the canonical event shape of Spec/FibexSpec.v (style 0) or as a tool-written document (declaration, root, group wrappers, indentation, an ECU block with its own MANUFACTURER-EXTENSION; style 1); the real gather_fibex_data / extract_metadata run on the files, the model on the quick-xml event dump of the same files; lookups with and without extended-header ids.",
+        "assumptions": ["quick-xml 0.29 is the tokenizer and is not modelled: the model starts at the event list the same quick-xml yields for the same text (re-derived and compared on every case)",
+                        "for style-0 files the model checks that the event list IS Spec.files_of(layout) (the hypothesis shape of c11_load); style-1 documents are outside the canonical shape and are covered by the correspondence and the oracle only",
+                        "HashMap iteration order abstracted (maps compared sorted by key)"],
+    },
+    "C12": {
+        "rule": "op 50: empty path list, missing file, empty file; every truncation offset of small generated documents (both styles); the crate's sample tests/dlt-messages.xml cut at a stratified set of offsets; generated multi-file document sets with one file mutated (truncation, line deletion, attribute deletion, byte corruption with markup characters / NUL / 0xff, chunk duplication and deletion) or missing. Each load runs in its own thread with a 4 s limit; outcome in {model, refused, panic, timeout} compared with the model's {Loaded, Refused, LoadPanic, OutOfFuel} on the dumped events.",
+        "assumptions": ["'promptly' is wall-clock: the theorem gives a fuel bound linear in the number of XML events; the run checks a 4 s limit per load",
+                        "termination and panic-freedom inside quick-xml for corrupted bytes are exercised, not proved; file-system faults beyond 'missing' and 'empty' are not modelled"],
+    },
+    "C18": {
+        "rule": "op 42: fixed-point kinds (signed/unsigned x 32/64) x every value variant (all integer widths incl. boundary values, 2^53+1, 2^53+3, u64::MAX, i64::MIN; U128, floats, bool) x 24 special quantizations (0, -0, +-1, 0.5, 0.1, 0.01, 1.5, least subnormal, largest subnormal, least normal, f32 max/min, +-inf, quiet/signalling NaN, 2^24, 2^64, 2^-32, ...) and random f32 bit patterns x offsets (0, +-1, +-200, i32/i64 min/max, +-2^53, +-2^62, random); one case in four is not applicable (no fixed-point data, another kind, non-integer value, any well-formed argument).",
+        "assumptions": ["IEEE-754 binary64 multiplication and Rust's int->f64 / f32->f64 / f64->u64 casts are modelled with the standard library's SpecFloat (SFmul 53 1024, binary_normalize); the model is thereby checked against rustc's arithmetic on every case"],
+    },
     "C13": {
         "rule": "op 13: lists of 0-5 signal types x exact payloads, every truncation (a quarter of the cases) or one random truncation, trailing bytes, strings with invalid UTF-8 / NUL, both byte orders; a tenth include fixed-point signal types.",
     },
